@@ -50,22 +50,22 @@ Definition impl_trace (c : smcase) : list action := match c with KSm _ _ _ _ _ _
 
 (* code 0 ok; 2 monitor rejects the implementation's trace (or it hung / panicked);
    100000 + i: projections differ first at index i (monitor accepted) *)
-Definition sm_check (proj : action -> bool) (mon : entry_point -> list action -> bool) (c : smcase) : N :=
+Definition sm_check (proj : action -> bool) (mon : smcase -> list action -> bool) (c : smcase) : N :=
   match c with
   | KSm ep _ _ _ _ _ impl bad =>
       if bad then 2
       else
         let it := canon_trace impl in
-        if negb (mon ep it) then 2
+        if negb (mon c it) then 2
         else match first_diff 0 (filter proj (canon_trace (model_trace c))) (filter proj it) with
              | None => 0
              | Some i => 100000 + i
              end
   end.
 
-Definition run_sm (proj : action -> bool) (mon : entry_point -> list action -> bool) (cases : list (N * smcase)) : list (N * N) :=
+Definition run_sm (proj : action -> bool) (mon : smcase -> list action -> bool) (cases : list (N * smcase)) : list (N * N) :=
   filter (fun p => negb (N.eqb (snd p) 0)) (map (fun p => (fst p, sm_check proj mon (snd p))) cases).
 
 Definition proj_all (a : action) : bool := true.
-Definition mon_true (ep : entry_point) (t : list action) : bool := true.
+Definition mon_true (c : smcase) (t : list action) : bool := true.
 Definition run_sm_all := run_sm proj_all mon_true.
